@@ -34,12 +34,16 @@ RULE = ("a case is a script of port-mods, link-down marks and 1..3 deliveries (p
         "output and another rewrite between that and its last emitting output, or (b) pushes a VLAN tag on an untagged frame before "
         "an emitting output, or (c) addresses (directly, by IN_PORT, or by FLOOD/ALL) a port that may not transmit (PORT_DOWN, link "
         "down, NO_FWD, NO_FLOOD under FLOOD), or (d) arrives on a port that is receive-disabled for it or is dropped at a down ingress port, or (e) misses the "
-        "table on a NO_PACKET_IN port; distinct by SHA-1 of the canonical JSON of the case")
+        "table on a NO_PACKET_IN port, or (f) emits after a field-modify action that is not applicable to the frame (nw/tp rewrite on "
+        "ARP, on a 0x9100/0x88a8 frame that only resembles tagged IPv4, tp rewrite on ICMP ...); distinct by SHA-1 of the canonical JSON of the case")
 ASSUMPTIONS = [
   "frames carry valid checksums and consistent lengths and no link-layer trailer (the generator builds them with ref/frames.py; the validator re-checks every input frame)",
   "output to the ingress port's own number is dropped; OFPP_IN_PORT is needed to send back (OpenFlow 1.0.0 section 3.3)",
   "ambiguous zones, judged only for 'no exception' and port guards: OFPP_TABLE from a flow entry and anything after an OFPP_TABLE output, OFPP_NORMAL/OFPP_LOCAL, "
-  "nw rewrites on non-IPv4 frames (incl. IPv4 behind two tags / SNAP) and on first fragments of TCP/UDP, tp rewrites on anything but an unfragmented TCP/UDP datagram, enqueue to virtual ports",
+  "nw/tp rewrites on IPv4 behind two tags or in SNAP, nw_src/nw_dst/tp rewrites on first fragments of TCP/UDP, enqueue to virtual ports",
+  "0x8100 is the only VLAN TPID of OpenFlow 1.0: a frame of EtherType 0x9100 / 0x88a8 / 0x9200 / ... is untagged and not IPv4 whatever its payload looks like (set_vlan_* push a 0x8100 tag in front, strip_vlan is a no-op)",
+  "a field-modify action that 1.0 defines 'only for IPv4 / TCP / UDP packets' and meets another frame (ARP, other EtherTypes, ICMP or a later fragment for tp rewrites) may touch no byte: "
+  "either the list goes on with the frame unchanged or the datapath stops executing the list at that action; both are accepted, anything else is a violation (label inapplicable:*)",
   "set_nw_tos may either replace the 6 DSCP bits (keeping the packet's 2 low bits) or the whole octet; a UDP checksum of 0 may stay 0 or be filled in: either reading is accepted, consistently within a case",
   "a frame arriving on a port that is administratively down or link-down may be processed or dropped; frames dropped by NO_RECV/NO_RECV_STP may or may not be counted in rx_packets/rx_bytes; "
   "rx counters may or may not count OFPP_TABLE lookups; tx counters must equal exactly what was emitted",
@@ -50,7 +54,8 @@ ASSUMPTIONS = [
 ]
 EXHAUSTIVE_SCOPE = {
   "quick": "all 64 x 64 combinations of {PORT_DOWN, NO_RECV, NO_RECV_STP, NO_FLOOD, NO_FWD, NO_PACKET_IN} on ingress port 1 and egress port 2 of a 3-port switch (set by port-mod), "
-           "x {flow, packet-out} delivery x {ordinary, STP-destination} frame with the fixed list [set_dl_src, output:2, set_vlan_vid, FLOOD, set_nw_tos, IN_PORT, ALL, CONTROLLER]; plus the 64 ingress configs x 2 frames for a table miss",
+           "x {flow, packet-out} delivery x {ordinary, STP-destination} frame with the fixed list [set_dl_src, output:2, set_vlan_vid, FLOOD, set_nw_tos, IN_PORT, ALL, CONTROLLER]; plus the 64 ingress configs x 2 frames for a table miss; "
+           "and each of the 10 field-modify actions alone before an output x 13 frames it must leave alone or that only resemble tagged IPv4 (EtherTypes 0x9100/0x88a8/0x9200/0x9300/0x8101/0x0801 before a tag-like word + IPv4/TCP, ARP, ICMP, later fragment, LLC) x {flow, packet-out} x 2 output tails",
   "thorough": "as quick, additionally with a tagged TCP frame and the list [strip_vlan, ALL, set_tp_dst, output:2, set_nw_dst, FLOOD, enqueue:2, CONTROLLER]",
 }
 
@@ -66,6 +71,8 @@ SHORT = {"output": "out", "enqueue": "enq", "set_vlan_vid": "vid", "set_vlan_pcp
          "set_tp_src": "tps", "set_tp_dst": "tpd"}
 
 _SPECIAL_UDP = [53, 67, 68, 520, 4789, 5353]      # ports behind which pox.lib.packet dissects an application protocol
+# EtherTypes used elsewhere as stacked-VLAN TPIDs.  OpenFlow 1.0 knows 0x8100 only: to every action these are opaque frames.
+_NOT_VLAN_TPIDS = (0x9100, 0x88a8, 0x9200, 0x9300)
 
 _W = None
 
@@ -208,6 +215,8 @@ def frame_class(frame):
           break
     elif k == "udp" and "udp" in d and (d["udp"]["sport"] in _SPECIAL_UDP or d["udp"]["dport"] in _SPECIAL_UDP):
       k = "udp-app-port"
+  elif et in _NOT_VLAN_TPIDS:
+    k = "other-tpid"
   elif et == 0x88cc:
     k = "lldp"
   elif et == 0x888e:
@@ -442,11 +451,11 @@ def _check_pktin(pi, frame, in_port, reason, want_len):
   return None
 
 
-def _match(res, emitted, pktins, in_port, ctl_optional, miss_send_len, complete):
-  """Compare one reference result with what happened.  -> None or (clause, discriminators, message)."""
+def _match(events, emitted, pktins, in_port, ctl_optional, miss_send_len, complete):
+  """Compare one reference event list with what happened.  -> None or (clause, discriminators, message[, distance])."""
   i = 0
   ctl_expected = []
-  for e in res.events:
+  for e in events:
     if e[0] == "out":
       if i >= len(emitted):
         return "emit-ports", {"kind": "missing"}, "expected a frame on port %d, nothing more was emitted" % e[1]
@@ -731,8 +740,19 @@ def _run(case, sw, out, nt):
         bad = F12.validate(e[1])
         if bad:
           raise HarnessError("reference model produced an invalid frame %r: %s" % (bad, e[1].hex()))
-      m = _match(res, emitted, pktins, in_port, ctl_optional=no_pktin, miss_send_len=miss_send_len,
-                 complete=res.ambiguous is None)
+      # An action that OpenFlow 1.0 defines only for IPv4 / TCP / UDP met another kind of frame: it may touch nothing.
+      # Either the list went on with the frame unchanged, or the datapath stopped executing it right there.
+      n = len(res.events)
+      cuts = [n] + sorted(set(k for k, why in res.inapplicable if k < n), reverse=True)
+      m = None
+      for k in cuts:
+        mk = _match(res.events[:k], emitted, pktins, in_port, ctl_optional=no_pktin, miss_send_len=miss_send_len,
+                    complete=(res.ambiguous is None) if k == n else True)
+        if mk is None:
+          m = None
+          break
+        if m is None:
+          m = mk
       if m is None:
         failures = []
         break
@@ -749,6 +769,10 @@ def _run(case, sw, out, nt):
       rx_hi[in_port][1] += k * 65535
     if res.ambiguous is not None:
       out.label("ambiguous:" + res.ambiguous.split(" on ")[0].split(" 0x")[0])
+    for k, why in res.inapplicable:
+      out.label("inapplicable:" + why.split(" on ")[0])
+      if k < len(res.events):
+        nt[0] = True                      # something is emitted after an action that had to leave the frame alone
     if _classify(out, res, lists, actions, in_port, port_state, ntags, mode, no_pktin):
       nt[0] = True
 
@@ -941,7 +965,16 @@ def frame_strategy(draw):
     vlan = [tag]
     if v == 19:
       vlan = [tag, [draw(st.integers(0, 7)), 0, draw(st.integers(0, 4095))]]
-  k = draw(st.integers(0, 19))
+  k = draw(st.integers(0, 21))
+  if k >= 20:
+    # not a VLAN tag to OpenFlow 1.0, although what follows looks exactly like TCI + EtherType + packet
+    inner = draw(st.sampled_from(["tcp", "udp", "icmp", "arp"]))
+    if inner == "arp":
+      body = struct.pack("!HH", draw(_U16), F.ETH_ARP) + F.build_arp(1, draw(_MAC), draw(_U32), draw(_MAC), draw(_U32))
+    else:
+      body = struct.pack("!HH", draw(_U16), F.ETH_IP) + draw(_ipv4_packet(inner))
+    return F.build_eth(dst, src, draw(st.sampled_from(list(_NOT_VLAN_TPIDS) + [0x9100, 0x8101, 0x0801])), body,
+                       vlan=vlan if k == 21 else None)
   if k <= 5:
     return F.build_eth(dst, src, F.ETH_IP, draw(_ipv4_packet("tcp")), vlan=vlan)
   if k <= 10:
@@ -972,7 +1005,7 @@ def frame_strategy(draw):
     # EAPOL-Start / Logoff: no body
     return F.build_eth(bytes.fromhex("0180c2000003"), src, 0x888e, struct.pack("!BBH", 1, draw(st.sampled_from([1, 2])), 0), vlan=vlan)
   if o == 4:
-    return F.build_eth(dst, src, draw(st.sampled_from([0x88a8, 0x9100, 0x8808, 0x88f7])), body, vlan=vlan)
+    return F.build_eth(dst, src, draw(st.sampled_from([0x88a8, 0x9100, 0x9200, 0x8808, 0x88f7])), body, vlan=vlan)
   return F.build_eth(dst, src, draw(st.sampled_from([0x0600, 0x0801, 0x1234, 0xffff, 0x22f3])), body, vlan=vlan)
 
 
@@ -1165,11 +1198,45 @@ def _grid(tier, mode):
           yield case
 
 
+def _inapplicable_cases():
+  """Every field-modify action, alone in front of an output, on frames it must not alter or that are not what they
+  resemble: EtherTypes that look like stacked-VLAN TPIDs in front of a tag-like word and a valid IPv4/TCP packet,
+  ARP, ICMP, a later fragment, LLC."""
+  S, D = "10.0.0.1", "10.0.0.2"
+  A, B = bytes.fromhex("0200000000a1"), bytes.fromhex("0200000000b2")
+  tcp = F.build_ipv4(S, D, 6, F.build_tcp(S, D, 1234, 80, b"lookalike!", seq=1, ack=2, flags=0x18), ident=11)
+  udp = F.build_ipv4(S, D, 17, F.build_udp(S, D, 1234, 4321, b"lookalike!"), ident=12)
+  frames = []
+  for et in _NOT_VLAN_TPIDS + (0x8101, 0x0801):
+    frames.append(F.build_eth(B, A, et, struct.pack("!HH", 0x6064, F.ETH_IP) + tcp))
+  frames.append(F.build_eth(B, A, 0x9100, struct.pack("!HH", 0x0005, F.ETH_IP) + udp, vlan=(1, 0, 9)))
+  frames.append(F.build_eth(B, A, 0x88a8, struct.pack("!HH", 0x0005, F.ETH_ARP) + F.build_arp(1, A, S, bytes(6), D)))
+  frames.append(F.build_eth(b"\xff" * 6, A, F.ETH_ARP, F.build_arp(1, A, S, bytes(6), D)))
+  frames.append(F.build_eth(B, A, F.ETH_ARP, F.build_arp(2, A, S, B, D), vlan=(0, 0, 5)))
+  frames.append(F.build_eth(B, A, F.ETH_IP, F.build_ipv4(S, D, 1, F.echo(8, 1, 1, b"ping-pong!"), ident=13)))
+  frames.append(F.build_eth(B, A, F.ETH_IP, F.build_ipv4(S, D, 17, b"later-fragment-x", frag=2, ident=14)))
+  frames.append(F.build_8023(B, A, b"llc-payload!", dsap=0x42, ssap=0x42))
+  acts = [{"a": "set_vlan_vid", "v": 7}, {"a": "set_vlan_pcp", "v": 5}, {"a": "strip_vlan"},
+          {"a": "set_dl_src", "v": bytes.fromhex("02aabbccdd01")}, {"a": "set_dl_dst", "v": bytes.fromhex("02aabbccdd02")},
+          {"a": "set_nw_src", "v": 0x0a0000fe}, {"a": "set_nw_dst", "v": 0x0a0000fd}, {"a": "set_nw_tos", "v": 0x20},
+          {"a": "set_tp_src", "v": 8080}, {"a": "set_tp_dst", "v": 8081}]
+  for fr in frames:
+    for a in acts:
+      for mode in ("flow", "packet_out"):
+        for tail in ([{"a": "output", "port": 2, "max_len": 0}],
+                     [{"a": "output", "port": R.OFPP_CONTROLLER, "max_len": 0xffff}, {"a": "output", "port": R.OFPP_FLOOD, "max_len": 0}]):
+          step = {"mode": mode, "frame": fr, "in_port": 1, "actions": [a] + tail}
+          if mode == "flow":
+            step["match"] = "all"
+          yield {"nports": 3, "steps": [step]}
+
+
 def plan(tier):
   n = 4000 if tier == "quick" else 64000
   return [
     Enum("grid-flow", lambda: _grid(tier, "flow"), shards=16),
     Enum("grid-packet-out", lambda: _grid(tier, "packet_out"), shards=16),
     Enum("grid-miss", lambda: _grid(tier, "miss"), shards=2),
+    Enum("inapplicable-rewrites", _inapplicable_cases, shards=2),
     Hyp("generated", case_strategy, examples=n, shards=16),
   ]
